@@ -71,7 +71,7 @@ func init() {
 	fw.Register(&fw.Property{
 		ID:    "C19",
 		Level: "fault_enumeration",
-		Rule: "for every entry point that takes an output writer (sam toMultiAlign plain and wrapped, sam variants and variants per-sequence and --aggregate, snps per-sequence and --aggregate, closest plain / -n list / -n table, updown list, updown topranking list and table, plus toPairAlign and the two tables of sam indels (to separate files and to one file) through the binary) and three representative inputs each (incl. one whose result rows are empty): the fault-free run is observed once to learn the number W of Write calls and their sizes, then a write failure is injected at the k-th Write for every k in 1..W, one-shot and sticky, and the call must return a non-nil error; at binary level the same commands run under RLIMIT_FSIZE = L for every write boundary L (and L-1, L+1, 0 and random offsets) of the fault-free output and must exit non-zero iff L is smaller than the fault-free size; " +
+		Rule: "for every entry point that takes an output writer (sam toMultiAlign plain and wrapped, sam variants and variants per-sequence and --aggregate, snps per-sequence and --aggregate, closest plain / -n list / -n table, updown list, updown topranking list and table, plus toPairAlign and the two tables of sam indels (to separate files and to one file) through the binary) and three representative inputs each (incl. one whose result rows are empty and, for the FASTA-writing commands, one with records of 4-9 kb): the fault-free run is observed once to learn the number W of Write calls and their sizes, then a write failure is injected at the k-th Write for every k in 1..W, one-shot and sticky, and the call must return a non-nil error; at binary level the same commands run under RLIMIT_FSIZE = L for every write boundary L (and L-1, L+1, 0 and random offsets) of the fault-free output and must exit non-zero iff L is smaller than the fault-free size; " +
 			"distinct non-trivial = distinct (entry point, input, k, mode) faults injected in-process plus distinct (command, input, L) limits at binary level",
 		Assumptions: []string{"RLIMIT_FSIZE makes the kernel accept exactly L bytes and fail the next write(2) with EFBIG: a real device-full at an exact byte with no instrumentation in the target",
 			"a call that neither returns nor makes progress after an injected failure is a violation only if the goroutine dump shows a closed channel deadlock"},
@@ -91,7 +91,7 @@ func init() {
 }
 
 func c19MakeEntry(r *fw.Rng, e int, variant int) c19Entry {
-	// variant 0: ordinary; 1: results with empty rows (queries equal to the reference); 2+: ordinary, other sizes
+	// variant 0: ordinary; 1: results with empty rows (queries equal to the reference); 2, 6, 10, ...: records of 4-9 kb for the FASTA-writing commands; others: ordinary, other sizes
 	trivial := variant == 1
 	opts := gen.AnnoOpts{MaxFeats: 3, SplitCodons: true}
 	vp := gen.VarProfile{PSub: 0.08, PAmbig: 0.2, PDel: 0.02, MaxInsSites: 2, MaxDelLen: 5}
@@ -114,9 +114,14 @@ func c19MakeEntry(r *fw.Rng, e int, variant int) c19Entry {
 	switch e {
 	case 0, 1:
 		L := r.Range(20, 80)
-		ref := gen.Genome(r, L)
 		pr := gen.DefaultSamProfile()
 		pr.MaxQueries = 6
+		if variant%4 == 2 {
+			// records longer than a page or a pipe buffer: header and sequence cannot share one write
+			L = r.Range(4200, 9000)
+			pr.MaxQueries = 3
+		}
+		ref := gen.Genome(r, L)
 		sf := gen.MakeSam(r, ref, pr)
 		wrap := -1
 		name := "sam toMultiAlign"
@@ -307,6 +312,9 @@ func c19MakeEntry(r *fw.Rng, e int, variant int) c19Entry {
 			}}
 	default: // 15, 16: toPairAlign (binary only): stdout redirected to a file, and directory mode
 		L := r.Range(20, 80)
+		if variant%4 == 2 {
+			L = r.Range(4200, 9000)
+		}
 		ref := gen.Genome(r, L)
 		pr := gen.DefaultSamProfile()
 		pr.MaxQueries = 5
